@@ -664,6 +664,11 @@ impl LockManager {
 
     #[must_use]
     pub fn from_serializable(state: SerializableLockState) -> Self {
+        // Handles come from a process-wide counter that starts over after a restart: move it
+        // past every restored handle so a new lock never shares a handle with a restored one.
+        if let Some(max_handle) = state.locks.values().map(|lock| lock.lock_handle).max() {
+            LOCK_COUNTER.fetch_max(max_handle.saturating_add(1), Ordering::Relaxed);
+        }
         Self {
             locks: RwLock::new(state.locks),
             tx_locks: RwLock::new(state.tx_locks),
